@@ -350,3 +350,12 @@ TRUSTED_BASE = [
     "tools/extract_consts.py (regex extraction of constants from /repo/src into Model/Extracted.lean)",
     "libraries the model starts after: serde_yaml, yaml-merge-keys, serde derive glue, walkdir, std::path/fs, regex, rayon, chrono, serde_json/serde_yaml float formatting, PyO3/CPython, anyhow",
 ]
+
+
+def site_census_check():
+    rc, out, err = sh([sys.executable, os.path.join(VERIF, "tools", "site_census.py"), "--check"])
+    try:
+        res = json.loads(out)
+    except Exception:
+        res = {"error": (out + err)[-2000:]}
+    return rc, res
